@@ -341,6 +341,9 @@ def stepL (c : SCfg) (s : SState) (l : Label) : SState :=
       | _ => (s.note .Q s!"INS without a pending feature and not a single new entry").followQueues c ps pc
   | .get1 t ask ns nc =>
     let s := s.inPhase [.loopTop, .draining] "features.get called"
+    -- every completion notification pending at this point was sent before `run_scenarios.next()` returned, and the
+    -- drain loop runs until the channel is empty: none may be left (a late one would trip fail-fast / close a bracket late)
+    let s := if s.notifs.isEmpty then s else s.note .FF s!"features.get called while {s.notifs.length} completion notification(s) are still undrained"
     let s := if s.tripDue then { (s.note .FF "final failure drained under fail-fast but the runner did not stop dispatching") with tripDue := false } else s
     let s := { s with phase := .afterGet1 }
     let s := if ask == s.slots.ask then s else s.note .K s!"get asked with {repr ask}, model slots {repr s.slots}"
